@@ -283,46 +283,58 @@ _NODE = re.compile(r'^(-?\d+) \[label="((?:[^"\\]|\\.)*)"(.*)$')
 WANT = ("disk", "ideal", "depth", "dev", "last")
 
 
-def _parse_node_line(line):
-    m = _NODE.match(line)
-    if not m:
-        return None
-    label = m.group(2).replace("\\n", "\n").replace('\\"', '"').replace("\\\\", "\\")
+def _parse_label(label):
+    label = label.replace("\\n", "\n").replace('\\"', '"').replace("\\\\", "\\")
     st = {}
     for part in re.split(r"(?:^|\n)/\\ ", label):
         name, _, rest = part.partition(" = ")
         name = name.strip()
         if name in WANT:
             st[name] = tlaparse.parse_value(rest)
-    return m.group(1), st, "filled" in m.group(3)
+    return st
 
 
-def _parse_chunk(lines):
-    return [x for x in (_parse_node_line(ln) for ln in lines) if x]
+class LazyNodes:
+    """node id -> state, parsed on demand from the raw dot label (a 100 000-state graph parsed eagerly needs GBs)"""
+
+    def __init__(self, raw):
+        self.raw = raw
+        self._cache = {}
+
+    def __getitem__(self, nid):
+        st = self._cache.get(nid)
+        if st is None:
+            if len(self._cache) > 30000:
+                self._cache.clear()
+            st = self._cache[nid] = _parse_label(self.raw[nid])
+        return st
+
+    def __len__(self):
+        return len(self.raw)
+
+    def op(self, nid):
+        m = re.search(r'last = \[[^\]]*?\bop \|-> \\"(\w+)\\"', self.raw[nid])
+        return m.group(1) if m else self[nid]["last"]["op"]
 
 
 def load_graph(path, procs=8):
-    """-> nodes {id: state}, edges [(src, dst)], init id.  The spec carries `last`, so an edge's operation
+    """-> nodes (LazyNodes), edges [(src, dst)], init id.  The spec carries `last`, so an edge's operation
     and expected result are read off its destination node."""
-    node_lines, edges = [], []
+    raw, edges, init = {}, [], None
     with open(path) as f:
         for line in f:
             m = _EDGE.match(line)
             if m:
                 edges.append((m.group(1), m.group(2)))
-            elif "[label=" in line:
-                node_lines.append(line)
-    n = max(1, len(node_lines) // (procs * 4))
-    chunks = [node_lines[i:i + n] for i in range(0, len(node_lines), n)]
-    nodes, init = {}, None
-    for part in core.pmap(_parse_chunk, chunks, procs=procs, chunks=1):
-        for nid, st, is_init in part:
-            nodes[nid] = st
-            if is_init:
-                init = nid
+                continue
+            m = _NODE.match(line)
+            if m:
+                raw[m.group(1)] = m.group(2)
+                if "filled" in m.group(3):
+                    init = m.group(1)
     if init is None:
         raise core.MachineryError("no initial state in %s" % path)
-    return nodes, edges, init
+    return LazyNodes(raw), edges, init
 
 
 def edge_cover(nodes, edges, init):
@@ -331,7 +343,7 @@ def edge_cover(nodes, edges, init):
     then the edge.  Deepest edges first, so that shallow edges are covered on the way."""
     out_e, in_e = {}, {}
     for u, v in set(edges):
-        if u == v and nodes[v]["last"]["op"] == "init":
+        if u == v and u == init:
             continue
         out_e.setdefault(u, []).append(v)
         in_e.setdefault(v, []).append(u)
